@@ -200,6 +200,12 @@ def run(ctx):
         for _ in range(ctx.budget(8, 40)):
             datas.append(E(v))
         datas.append(E(v, compress=True))
+    # compressed terms whose deflated stream is far longer than any internal buffer of the inflater (a few KiB .. 300 KiB):
+    # moderately compressible binaries, and a long list
+    for n, alphabet in ((6000, 200), (60000, 40), (200000, 16), (400000, 90)):
+        blob = bytes(rng.randrange(alphabet) for _ in range(n))
+        datas.append(E(("bits", blob, 8 * n), compress=True))
+    datas.append(E(etf.mklist([("int", rng.randrange(2**31)) for _ in range(30000)]), compress=True))
     # hand-written forms the random encoder may take long to hit
     a = lambda s: bytes([119, len(s)]) + s  # noqa
     datas += [bytes([131, 89]) + a(b"n@h") + struct.pack(">II", 7, 3),                       # NEW_PORT_EXT
